@@ -628,7 +628,20 @@ def _objective_terms(ctx, f, sk, roles, groups, pred_positions=("A_out", "B_out"
                            f"{g}[{want[0]}, {want[1]}]" if gr == want else f"{g} subscripts have roles {gr}", n)
             break
     if n_terms == 0:
-        ctx.ob("R-ENUM", f, "predicate indexed V[a, b, x, y] by role", None, "objective accumulation not recognised", required=False)
+        # is there an accumulation into the objective at all?  then it must be weighted by the predicate's VALUE
+        from ..dataflow import origins
+        og = origins(f)
+        obj_names = set()
+        for p in sk.probs:
+            if p.objective_node is not None:
+                obj_names |= og.of(p.objective_node)
+        accs = [n for n in walk_no_nested(f.node) if isinstance(n, ast.AugAssign) and isinstance(n.target, ast.Name) and n.target.id in obj_names]
+        if accs:
+            ctx.ob("R-ENUM", f, "predicate indexed V[a, b, x, y] by role", False,
+                   f"`{unparse(accs[0])[:80]}` accumulates the objective without the predicate value V(a,b|x,y) as a factor: every term counts as a full win "
+                   "(fractional predicates are rounded up to 1)", accs[0])
+        else:
+            ctx.ob("R-ENUM", f, "predicate indexed V[a, b, x, y] by role", None, "objective accumulation not recognised", required=False)
 
 
 def _nonsignaling(ctx, f, role_names=("A_out", "B_out", "A_in", "B_in")):
